@@ -254,6 +254,8 @@ impl EventData {
                 // it's not always true that you can really remove the timer entry
                 h.with_mut_data(|value| value.data.event_data = std::ptr::null_mut());
             }
+            #[cfg(may_verif)]
+            may_queue::verif::point(may_queue::verif::site::IO_TIMER_UNLINK, self.fd as usize % get_scheduler().workers);
             h.remove()
         });
 
@@ -282,6 +284,8 @@ impl EventData {
                 // it's not always true that you can really remove the timer entry
                 h.with_mut_data(|value| value.data.event_data = std::ptr::null_mut());
             }
+            #[cfg(may_verif)]
+            may_queue::verif::point(may_queue::verif::site::IO_TIMER_UNLINK, self.fd as usize % get_scheduler().workers);
             h.remove()
         });
 
